@@ -19,7 +19,7 @@ use serde_json::{json, Value};
 use std::time::Duration;
 
 /// Value with references followed (streams: dictionary + raw data); revisits and depth overruns become markers.
-fn deep<R: Resolve>(r: &R, p: &Primitive, path: &mut Vec<u64>, budget: &mut usize) -> Val {
+pub fn deep<R: Resolve>(r: &R, p: &Primitive, path: &mut Vec<u64>, budget: &mut usize) -> Val {
     if *budget == 0 {
         return Val::name("@budget");
     }
